@@ -44,6 +44,10 @@ NOTES = {
  "C05-r3-2": "caught after strengthening: the model follows the changed pattern, so the port agrees; an oracle counting hard breaks in and out of line_wrap_to_width was added, and separators with a literal backslash before the break",
  "C10-r3-1": "caught after strengthening: the heading vocabulary had no bold span followed by bare punctuation; it is now every ordered pair of 15 heading pieces, each used in every run",
  "C11-r3-1": "caught after strengthening: words were only separated by ASCII whitespace; U+00A0, U+2003, U+3000, form feed, U+001F, U+2028 added as separators",
+ "C06-r3-1": "obsolete: caught as it stood by the run before fix c8c087c; the repaired pre-pass (it remembers an open list instead of looking at the previous line only) no longer depends on the function the change breaks, and the demonstration now exits 0 with the change applied",
+ "C01-r3-1": "caught after strengthening: had been caught by luck of the random stream; every kind of block is now the first block of every kind of container in every run (gen_docs.systematic_docs)",
+ "C02-1": "caught after strengthening: as C01-r3-1 - the line-start escapes on a continuation line are part of the systematic family",
+ "C02-r2-2": "caught after strengthening: as C01-r3-1 - a code block with an empty line inside every container combination is part of the systematic family (this replaces the earlier note: likelihood alone was not enough)",
  "C12-r3-1": "caught (patch rebased onto fix a7bad7d, which rewrote the lines it changes)",
  "C12-r3-2": "caught after strengthening: nothing was run at a huge width; a 250 KB paragraph is timed at width 88 and at width 1 000 000",
 }
@@ -61,6 +65,8 @@ for d in sorted(glob.glob('/verif/seeded/*/')):
     if len(summ) > 170:
         summ = summ[:167] + '...'
     res = 'VIOLATION' if caught else ('missed' + (f" (caught by {', '.join(others)})" if others else ''))
+    if r.get('demo_exit') == 0:
+        res = 'change no longer breaks the property (demonstration exits 0)' 
     rows.append(f"| {sid} | {summ} | `./check {r['property']} quick`: {res} | {NOTES.get(sid, 'caught as it stood' if caught else '')} |")
 n = len(rows)
 tbl = "| id | seeded change (one line) | check | result |\n|---|---|---|---|\n" + "\n".join(rows)
